@@ -21,6 +21,8 @@ AgViol(r) ==
                (IF r.timed THEN FLess(r.perfs[i + 1][1], r.perfs[i][1]) ELSE FLess(r.perfs[i][1], r.perfs[i + 1][1]))
           THEN {} ELSE {"better_performance_does_not_grade_higher"})
     \cup (IF r.f # One \/ r.atbest = One THEN {} ELSE {"open_best_at_factor_one_does_not_grade_one"})
+    \* ages past the last column use the last column: the very same factor (flast = factor at the last column)
+    \cup (IF "past" \in DOMAIN r /\ r.past /\ r.f # r.flast THEN {"age_past_last_column_does_not_use_last_column"} ELSE {})
 SpViol(r) == IF \A i \in DOMAIN r.vs : r.vs[i] = r.vs[1] /\ \A j \in 1..3 : ~Raised(r.vs[i][j])
              THEN {} ELSE {"spelling_changes_result"}
 \* C15
